@@ -156,11 +156,11 @@ theorem C19_key_by_env :
 
 /-! ## flush on shutdown -/
 
-/-- FULL-STRENGTH statement (kept visible; FALSE of the code, see
-    `C19_finding_close_drops_buffered`): whenever Close has returned, everything accepted
-    has been handed to the write function. -/
-def C19_flush_full : Prop :=
-  ∀ sched : List Step, let s := run codeCfg init sched
+/-- FULL-STRENGTH statement: whenever Close has returned, everything accepted has been handed
+    to the write function. TRUE of the code as it is (`C19_flush_code`), false of the code
+    before the repair (`C19_finding_close_drops_buffered`). -/
+def C19_flush_full (c : Cfg) : Prop :=
+  ∀ sched : List Step, let s := run c init sched
     s.closeCompleted = true → delivered s = s.pubs
 
 /-- What IS proved for the code as it is, for every schedule: when Close has returned, both
@@ -263,7 +263,7 @@ theorem C19_flush_quiescent (c : Cfg) (pre post : List Step) :
 /-- The known finding, machine-checked on the faithful model: two events accepted, moved to
     the buffer, Close called, the batching loop posts its done token, the writing loop's next
     `select` takes it and returns, Close returns — nothing was written. -/
-theorem C19_finding_close_drops_buffered : ¬ C19_flush_full := by
+theorem C19_finding_close_drops_buffered : ¬ C19_flush_full legacyCfg := by
   intro h
   have := h [.publish 0, .publish 0, .batchRecv, .batchPush, .batchRecv, .batchPush,
              .close, .batchDone, .broadcast, .writerSelect, .closeReturn]
@@ -273,7 +273,7 @@ theorem C19_finding_close_drops_buffered : ¬ C19_flush_full := by
     parked, Close, batching loop done, release"): three events, the first one is in the parked
     write call; when it returns the writing loop sees the token and leaves two in the buffer. -/
 theorem C19_finding_close_drops_buffered_replay :
-    let s := run codeCfg init
+    let s := run legacyCfg init
       [.publish 0, .batchRecv, .batchPush, .writerSelect, .writerPop,          -- first write parked with 1 event
        .publish 0, .publish 0, .batchRecv, .batchPush, .batchRecv, .batchPush,   -- two more accepted and buffered
        .close, .batchDone, .broadcast,                                            -- Close; batching loop done
@@ -291,18 +291,23 @@ theorem C19_flush_fixed (c : Cfg) (hd : c.drainOnDone = true) (sched : List Step
   have hp := C19_flush_partial c sched hc
   exact hp.2.2.2.2.2 (h.drained hd hp.2.2.1)
 
+/-- **Flush on shutdown, in full, for the code as it is** (`codeCfg` has the drain; tied to the
+    source by `C19_constants_are_code`). -/
+theorem C19_flush_code : C19_flush_full codeCfg :=
+  fun sched => C19_flush_fixed codeCfg rfl sched
+
 /-! ## Close terminates -/
 
-/-- FULL-STRENGTH statement (kept visible; FALSE of the code, see
-    `C19_finding_close_lost_wakeup`): once Close has been called, every run that keeps
+/-- FULL-STRENGTH statement (TRUE of the code as it is: `C19_close_terminates_code`; false of
+    the code before the repair: `C19_finding_close_lost_wakeup`): once Close has been called, every run that keeps
     taking enabled steps (fairness: nothing enabled is postponed for ever; the write
     function returns) is finite, and when nothing more can happen Close has returned. -/
-def C19_close_terminates_full : Prop :=
+def C19_close_terminates_full (c : Cfg) : Prop :=
   ∀ sched more : List Step,
-    let s := run codeCfg init sched
-    let s' := run codeCfg s more
-    s.closed = true → allEnabled codeCfg s more = true →
-      more.length ≤ rank s ∧ (canProgress codeCfg s' = false → s'.closeCompleted = true)
+    let s := run c init sched
+    let s' := run c s more
+    s.closed = true → allEnabled c s more = true →
+      more.length ≤ rank s ∧ (canProgress c s' = false → s'.closeCompleted = true)
 
 /-- What IS proved, for every configuration with a positive batch size and every schedule:
     after Close is called every enabled step strictly decreases `rank`, so at most `rank s`
@@ -337,7 +342,7 @@ theorem C19_close_terminates_partial (c : Cfg) (hb : 0 < c.batchMax) (sched more
     loop takes `default` in its select; Close closes the channel; the batching loop posts the
     token and broadcasts (nobody is waiting yet) and returns; the writing loop now locks, finds
     the buffer empty and waits — for ever; Close never returns. -/
-theorem C19_finding_close_lost_wakeup : ¬ C19_close_terminates_full := by
+theorem C19_finding_close_lost_wakeup : ¬ C19_close_terminates_full legacyCfg := by
   intro h
   have := h [.writerSelect, .close, .batchDone, .broadcast, .writerPop] [] (by decide) (by decide)
   revert this; decide
@@ -363,6 +368,10 @@ theorem C19_close_terminates_fixed (c : Cfg) (hs : c.releaseSticky = true) (hb :
   | true =>
     simp only [lostWakeup, Bool.and_eq_true, beq_iff_eq] at hl
     exact absurd hl.2 (hinv.noOrphan hs hl.1)
+
+/-- **Close terminates, in full, for the code as it is.** -/
+theorem C19_close_terminates_code : C19_close_terminates_full codeCfg :=
+  fun sched more => C19_close_terminates_fixed codeCfg rfl (by decide) sched more
 
 /-- Both repairs together: after any schedule of the repaired model, if Close was called and
     nothing more can happen, Close has returned and everything accepted was delivered. -/
